@@ -48,8 +48,10 @@ def unicode_escape_calls(fn):
             continue
         enc = opnd
         if isinstance(enc, ast.Name):
-            defs_ = [x.value for x in ast.walk(fn) if isinstance(x, ast.Assign) and len(x.targets) == 1 and isinstance(x.targets[0], ast.Name) and x.targets[0].id == enc.id]
-            if len(defs_) == 1:
+            defs_ = [x.value for x in ast.walk(fn) if isinstance(x, ast.Assign) and len(x.targets) == 1 and isinstance(x.targets[0], ast.Name) and x.targets[0].id == enc.id
+                     and not any(y is n for y in ast.walk(x.value))]  # (`v = decode(v)` rebinding the name to the decoded text is not a definition of the operand)
+            ascii_only = any(isinstance(g_, ast.If) and "isascii" in K.src(g_.test) and any(y is n for y in ast.walk(g_)) for g_ in ast.walk(fn))
+            if len(defs_) == 1 and not ascii_only:
                 enc = defs_[0]
         encoding = None
         if isinstance(enc, ast.Call) and isinstance(enc.func, ast.Attribute) and enc.func.attr == "encode":
